@@ -59,48 +59,35 @@ Print Assumptions C14_out_keys_nodup.
    input and in tensordict_out *)
 Definition C14_module_footprint_full_statement : Prop :=
   forall n x o k, ~ List.In k (out_keys n) -> footprint_statement n x o k.
-(* false today, four ways (D9, D141: the select_out_keys hook; D142: a sequence with select_out_keys; D143: sibling
-   leaves through update(keys_to_update)) *)
-Theorem C14_module_footprint_refuted : exists n x o k, ~ List.In k (out_keys n) /\ ~ footprint_statement n x o k.
-Proof. exact footprint_refuted. Qed.
-Print Assumptions C14_module_footprint_refuted.
+(* still false one way (D142, kept as a finding: a code comment says it is deliberate): a SEQUENCE with select_out_keys
+   writes back every input entry an inner module overwrote, selected or not *)
 Theorem C14_module_footprint_refuted_seq_select :
   exists n x k, ~ List.In k (out_keys n) /\ top_regular n = true /\ ~ footprint_statement n x None k.
 Proof. exact footprint_refuted_seq_select. Qed.
 Print Assumptions C14_module_footprint_refuted_seq_select.
-Theorem C14_module_footprint_refuted_tout :
-  exists n x ot k, ~ List.In k (out_keys n) /\ nosel n = true /\ ~ footprint_statement n x (Some ot) k.
-Proof. exact footprint_refuted_tout. Qed.
-Print Assumptions C14_module_footprint_refuted_tout.
-(* on the complement: no select_out_keys anywhere, and no two distinct keys sharing their first component — for EVERY
+(* on the complement — no select_out_keys on a sequence; leaf modules may select (D9 / D141 repaired); sibling keys below a
+   nested node are fine (D143 repaired), only a key that is the bare name of another key's node is excluded — for EVERY
    graph (any inplace modes at any level, partial_tolerant, nesting), every input, with or without tensordict_out *)
-Theorem C14_module_footprint_partial : forall U n x o, hdinj U -> nosel n = true ->
+Theorem C14_module_footprint_partial : forall U n x o, sibling_ok U -> noseqsel n = true -> buildable n = true ->
   (forall k, List.In k (all_outs n) -> List.In k U) -> within U x ->
   (forall ot, o = Some ot -> within U ot) ->
   forall k, ~ List.In k (out_keys n) -> footprint_statement n x o k.
 Proof. exact footprint_partial. Qed.
 Print Assumptions C14_module_footprint_partial.
 
-(* ---- subsequence_sound, full statement: for every module graph (any nesting), every key set S, every environment:
-   the sequence returned by select_subsequence(out_keys=S) computes the SAME TERMS for S *)
+(* ---- subsequence_sound: for every module graph (any nesting, ModuleList or ModuleDict — D144 repaired), every key set S,
+   every environment: the sequence returned by select_subsequence(out_keys=S) computes the SAME TERMS for S; it is again
+   a chain of in-place modules, so C14_inner_is_fold / C14_in_keys_sufficient apply to it (it runs on its own in_keys).
+   Full statement (no hypothesis on the number of outputs): *)
 Definition C14_subsequence_sound_full_statement : Prop :=
   forall n S n', regular n = true -> no_sink_in n = true ->
   select_sub (depth n + 1) n None (Some S) = SOk n' ->
   forall e e', spec_run (leaves n) e = Some e' ->
     exists e'', spec_run (leaves n') e = Some e'' /\ forall k, List.In k S -> e'' k = e' k.
-(* false today (D144): a ModuleDict-based nested sequence that contains a sequence is dropped without a word *)
-Theorem C14_subsequence_sound_refuted :
-  exists n S n' e e', regular n = true /\ no_sink_in n = true /\ has_outs n = true
-    /\ select_sub (depth n + 1) n None (Some S) = SOk n'
-    /\ spec_run (leaves n) e = Some e'
-    /\ exists k e'', List.In k S /\ spec_run (leaves n') e = Some e'' /\ e'' k <> e' k.
-Proof. exact subsequence_sound_refuted. Qed.
-Print Assumptions C14_subsequence_sound_refuted.
-(* on the complement (no ModuleDict-based sequence; every module has at least one out key): ALL graphs, ALL S, ALL
-   environments — forward pass, backward pass, recursive slicing of nested sequences; the slice is again a chain of
-   in-place modules, so C14_inner_is_fold / C14_in_keys_sufficient apply to it (it runs on its own in_keys) *)
+(* proved when every module has at least one out key (a module without outputs is dropped by the forward pass; that
+   case is covered by the differential run only) *)
 Theorem C14_subsequence_sound_partial : forall n S n',
-  regular n = true -> no_sink_in n = true -> has_outs n = true -> nodict n = true ->
+  regular n = true -> no_sink_in n = true -> has_outs n = true ->
   select_sub (depth n + 1) n None (Some S) = SOk n' ->
   regular n' = true /\ no_sink_in n' = true
   /\ forall e e', spec_run (leaves n) e = Some e' ->
@@ -141,21 +128,11 @@ Proof.
 Qed.
 Print Assumptions C14_forward_slice_partial.
 
-(* ---- interact_table: over InteractionType x everything the distribution object can answer, _dist_sample consults
-   exactly what the documented contract says — full statement *)
-Definition C14_interact_table_full_statement : Prop := forall it d, dist_sample it d = spec_sample it d.
-(* false today (D146): MEAN on a distribution whose `mean` raises NotImplementedError never reaches the empirical
-   estimate written for that case *)
-Theorem C14_interact_table_refuted : exists it d, dist_sample it d <> spec_sample it d.
-Proof. exact interact_table_refuted. Qed.
-Print Assumptions C14_interact_table_refuted.
-Theorem C14_interact_table_partial : forall it d, d146_region it d = false -> dist_sample it d = spec_sample it d.
-Proof. exact interact_table_partial. Qed.
-Print Assumptions C14_interact_table_partial.
-(* with the repair (fixed_D146 := true) the full statement holds *)
-Theorem C14_interact_table_when_fixed : forall it d, dist_sample_gen true it d = spec_sample it d.
-Proof. exact interact_table_when_fixed. Qed.
-Print Assumptions C14_interact_table_when_fixed.
+(* ---- interact_table: over InteractionType x everything the distribution object can answer (19 440 points), _dist_sample
+   consults exactly what the documented contract says (D146 repaired: full statement) *)
+Theorem C14_interact_table : forall it d, dist_sample it d = spec_sample it d.
+Proof. exact interact_table. Qed.
+Print Assumptions C14_interact_table.
 
 (* ---- non-vacuity *)
 Definition ex_graph : node :=
@@ -168,18 +145,29 @@ Example C14_ex_run : fwd ex_graph [(ka, In ka)] None
   = Done [(ka, In ka)] None
          (RFresh [(kc, App 3 0 [App 2 0 [App 1 0 [In ka]; In ka]])]).
 Proof. reflexivity. Qed.
-Example C14_ex_footprint_hyp : hdinj [ka; kb; kc] /\ nosel (Seq dcfg [Leaf (mk 1 [ka] [kb]); Leaf (mk 2 [kb] [kc])]) = true.
+Example C14_ex_footprint_hyp : sibling_ok [ka; knx; kny]
+  /\ noseqsel (Seq dcfg [Leaf (mksel 1 [ka] [knx; kny] [kny])]) = true
+  /\ buildable (Seq dcfg [Leaf (mksel 1 [ka] [knx; kny] [kny])]) = true.
 Proof.
-  split; [|reflexivity]. intros k k' H1 H2 E.
-  cbn in H1, H2. destruct H1 as [<-|[<-|[<-|[]]]], H2 as [<-|[<-|[<-|[]]]]; cbn in E; try reflexivity; discriminate.
+  split; [|split; reflexivity]. intros k k' H1 H2 E.
+  cbn in H1, H2. destruct H1 as [<-|[<-|[<-|[]]]], H2 as [<-|[<-|[<-|[]]]]; cbn in E; try discriminate;
+    solve [now left | right; split; reflexivity].
 Qed.
+(* the former witnesses of D9, D141, D143, D144 under the repaired behaviour *)
+Example C14_ex_D9_repaired : fwd d9_node d9_x None = Done [(ka, In ka); (kz, In kz); (kc, App 1 1 [In ka])] None RIn.
+Proof. exact footprint_D9_repaired. Qed.
+Example C14_ex_D143_repaired : oa (fwd d143_node d143_x (Some [])) = Some [(knx, App 1 0 [In ka])].
+Proof. exact footprint_D143_repaired. Qed.
+Example C14_ex_D144_repaired : select_sub (depth d144_node + 1) d144_node None (Some [kd])
+  = SOk (Seq dcfg [Seq (default_cfg true) [Seq dcfg [Leaf (mk 2 [ka] [kb])]; Leaf (mk 3 [kb] [kd])]]).
+Proof. exact subsequence_D144_repaired. Qed.
 Example C14_ex_last_writer : exists e', spec_run [mk 1 [ka] [kb]; mk 2 [kb] [kb; kb]] (env_of [(ka, In ka)]) = Some e'
   /\ e' kb = Some (App 2 1 [App 1 0 [In ka]]).
 Proof. eexists. split; reflexivity. Qed.
 
 Definition ex_chain : node :=
   Seq dcfg [Leaf (mk 1 [ka] [kb]); Seq dcfg [Leaf (mk 2 [kb] [kc]); Leaf (mk 3 [ka] [kb])]; Leaf (mk 4 [kc] [knx])].
-Example C14_ex_slice : regular ex_chain = true /\ no_sink_in ex_chain = true /\ has_outs ex_chain = true /\ nodict ex_chain = true
+Example C14_ex_slice : regular ex_chain = true /\ no_sink_in ex_chain = true /\ has_outs ex_chain = true
   /\ select_sub (depth ex_chain + 1) ex_chain None (Some [kc])
      = SOk (Seq dcfg [Leaf (mk 1 [ka] [kb]); Seq dcfg [Leaf (mk 2 [kb] [kc])]]).
 Proof. repeat split. Qed.
